@@ -39,6 +39,8 @@ def instances(tier):
     for fam in ("euler", "sympl_euler"):
         out.append(dict(id="continued-%s-N2" % fam, family=fam, N=2, mode="pieces", cont=True, budget=b))
         out.append(dict(id="continued-lookup-%s-N2" % fam, family=fam, N=2, mode="lookup", cont=True, budget=b))
+    out.append(dict(id="lookup-euler-N2-after-reset-reversed", family="euler", N=2, mode="lookup", reset_then_reverse=True, budget=b))
+    out.append(dict(id="pieces-euler-N2-after-reset-reversed", family="euler", N=2, mode="pieces", reset_then_reverse=True, budget=b))
     out.append(dict(id="richardson-euler-N2", family="euler", N=2, mode="richardson", budget=b))
     # deep extrapolation table: the convergence test may leave the table before the finest sub-division has been run
     out.append(dict(id="richardson-euler-N1-depth6", family="euler", N=1, mode="richardson", depth=6, budget=b))
@@ -144,6 +146,20 @@ def scenario(c, inst):
     st, r = run(a.integrate, callback=[spans.cap_callback(c, cap + 1, kind)])
     if st != "ok":
         return
+    if inst.get("reset_then_reverse"):
+        # the dense output of the first run is queried, the system is reset, the target is moved to the other side of t0 and the system
+        # integrated in the OPPOSITE direction: lookups in the new dense output are those of a fresh system
+        run(a.sol, t0 + 0.5 * (a.t[-1] - t0))
+        run(a.reset)
+        tf = t0 - (tf - t0)
+        st, r = run(setattr, a, "tf", tf)
+        if st != "ok":
+            c.check("c06.tf_can_be_reassigned", False, info=repr(r)[:120])
+            return
+        backward = not backward
+        st, r = run(a.integrate, callback=[spans.cap_callback(c, cap + 1, kind)])
+        if st != "ok":
+            return
     n = len(a.t)
     c.note("n_rows", n)
     c.case()
